@@ -513,11 +513,19 @@ func (c *Conn) ResetPollerEvent() {
 	p := c.p
 	g := p.g
 	fd := c.fd
-	if g.isOneshot && !c.closed {
-		if len(c.writeList) == 0 {
-			_ = p.resetRead(fd)
-		} else {
-			_ = p.modWrite(fd)
+	if g.isOneshot {
+		// the queue state is read and the event is chosen under the lock that
+		// writers hold, and the flag follows the registration.
+		c.mux.Lock()
+		if !c.closed {
+			if len(c.writeList) == 0 {
+				c.isWAdded = false
+				_ = p.resetRead(fd)
+			} else {
+				c.isWAdded = true
+				_ = p.modWrite(fd)
+			}
 		}
+		c.mux.Unlock()
 	}
 }
